@@ -111,14 +111,15 @@ def finish(
     total = 0
     discharged = 0
     per_rule = []
+    blind: List[str] = []
     for r in results:
         if len(r.obligations) < r.floor and not r.failed:
-            raise AnalysisError(
+            blind.append(
                 f"rule {r.rule} matched {len(r.obligations)} instance(s), floor is {r.floor}: "
                 f"the anchors of this rule vanished or the rule no longer sees them"
             )
         if r.control_ok is False:
-            raise AnalysisError(f"rule {r.rule}: positive control did not match - the rule is blind")
+            blind.append(f"rule {r.rule}: positive control did not match - the rule is blind")
         nf = 0
         for o in r.obligations:
             total += 1
@@ -141,6 +142,12 @@ def finish(
                 "notes": r.notes,
             }
         )
+    if blind and not violations:
+        # a blind rule is never a silent pass; when another rule reports a violation the
+        # violation is the more useful verdict and the blindness is printed with it
+        raise AnalysisError("; ".join(blind))
+    for b in blind:
+        print(f"NOTE: {b}")
     for o in known_hit:
         e = known[o.key]
         print(f"KNOWN-FINDING: property={prop} {o.key} :: {e.get('what', o.detail)}")
